@@ -159,6 +159,28 @@ def _point_from_model(case, ns, m, p):
     return pt
 
 
+def _generic_points(case, pt):
+    """deterministic generic points of the domain (distinct values per variable) - witness search only, never a verdict"""
+    out = []
+    primes = [2, 3, 5, 7, 11, 13, 17, 19, 23, 29, 31, 37]
+    for shift in range(4):
+        c = dict(pt)
+        for i, (v, dom) in enumerate(case["vars"].items()):
+            lo, hi = dom
+            q = Fraction(primes[(i + shift) % len(primes)], primes[(i + 2 * shift + 3) % len(primes)])
+            if v.startswith("n_"):
+                vals = [x for x in range(int(lo), int(hi) + 1) if x != 0]
+                c[v] = vals[(i * 3 + shift * 5) % len(vals)]
+            elif lo is not None and hi is not None:
+                c[v] = Fraction(lo) + (Fraction(hi) - Fraction(lo)) * (q / (1 + q))
+            elif lo is not None:
+                c[v] = Fraction(lo) + q
+            else:
+                c[v] = q - 1
+        out.append(c)
+    return out
+
+
 def replay(modname, casename, point, kinds):
     """concrete re-evaluation with floats (unit scales = floats). returns 1 if a violation reproduces, else 0"""
     mod = importlib.import_module(modname)
@@ -244,6 +266,19 @@ def task_case(modname, casename, kinds=("units", "formula", "warn"), deadline_s=
                        "formula": case.get("formula"), "warn": case.get("warn")})
     for p, m, g in o.failed[:2]:
         pt = _point_from_model(case, ns, m, p)
+        # the model of an abstracted (UF) query need not be a real witness: look for one among a few generic points
+        import contextlib
+        import io
+
+        for cand in [pt] + _generic_points(case, pt):
+            try:
+                with contextlib.redirect_stdout(io.StringIO()):
+                    hit = replay(modname, casename, {k: str(v) for k, v in cand.items()}, tuple(kinds))
+            except Exception:
+                hit = 0
+            if hit:
+                pt = cand
+                break
         exc = p.kind == "exc"
         wrapper = exc and isinstance(p.value, SymTypeError)
         res["violations"].append(dict(
